@@ -160,7 +160,7 @@ fn build_case(c: &Case) -> (World, Vec<String>, String) {
       w.add_text(&root, &format!("await import(\"{}\");\n", head));
       vec![root]
     }
-    _ => {
+    3 => {
       w.add_text(
         &root,
         &format!(
@@ -168,6 +168,16 @@ fn build_case(c: &Case) -> (World, Vec<String>, String) {
           head
         ),
       );
+      vec![root]
+    }
+    _ => {
+      // an untyped module whose types (x-typescript-types header) live behind
+      // the redirect chain, imported by main.ts
+      w.add(
+        "https://h.test/lib.js",
+        Resp::with_headers("export const l = 1;", &[("x-typescript-types", head.as_str())]),
+      );
+      w.add_text(&root, "import \"https://h.test/lib.js\";\n");
       vec![root]
     }
   };
@@ -432,9 +442,9 @@ pub fn run(tier: Tier, seed: u64) -> i32 {
     }
     for terminal in terminals {
       for max_redirects in [0usize, 1, 10, 20] {
-        for entry in 0..4u8 {
+        for entry in 0..5u8 {
           for kind in [GraphKind::All, GraphKind::CodeOnly] {
-            if entry == 3 && kind == GraphKind::CodeOnly {
+            if entry >= 3 && kind == GraphKind::CodeOnly {
               continue;
             }
             cases.push(Case {
@@ -480,7 +490,7 @@ pub fn run(tier: Tier, seed: u64) -> i32 {
       hops,
       terminal,
       max_redirects: *rng.pick(&[1usize, 10, 20]),
-      entry: rng.below(4) as u8,
+      entry: rng.below(5) as u8,
       kind: GraphKind::All,
       lock_redirects: lock,
       scheme: "https",
